@@ -276,8 +276,18 @@ fn sweep(job: &SweepJob, tier: &str, part: usize, parts: usize, seed: u64) -> Sw
 
 fn run_jobs(rep: &mut Report, jobs: &[SweepJob], tier: &str, seed: u64, prefix: &str) {
     let nt = nthreads(tier);
+    // casts that compile to the same primitive steps on the same core types (e.g.
+    // I32->Pointer at width 8 and I32->I64) are swept once
+    let mut groups: BTreeMap<String, Vec<&SweepJob>> = BTreeMap::new();
     for job in jobs {
-        // cross-check the compiled evaluator against the machine's apply_cast on a sample
+        let key = format!("{:?}|{:?}|{:?}|{:?}|{:?}", job.fwd.steps, job.back.as_ref().map(|b| &b.steps), job.have, job.want, job.dir);
+        groups.entry(key).or_default().push(job);
+        rep.distinct(&format!("{prefix}:{}", job.label));
+    }
+    rep.count_n(&format!("{prefix}:jobs"), jobs.len() as u64);
+    rep.count_n(&format!("{prefix}:distinct-compiled-casts"), groups.len() as u64);
+    for (_, members) in groups {
+        let job = members[0];
         let results = parallel(nt, |p| sweep(job, tier, p, nt, seed));
         let mut total = 0;
         let mut failure = None;
@@ -289,9 +299,10 @@ fn run_jobs(rep: &mut Report, jobs: &[SweepJob], tier: &str, seed: u64, prefix: 
         }
         rep.evals(total);
         rep.count_n(&format!("patterns:{}", if is64(job.have) { "64-bit-source" } else { "32-bit-source" }), total);
-        rep.distinct(&format!("{prefix}:{}", job.label));
         if let Some((class, detail)) = failure {
-            rep.violation(&format!("{prefix}:{}:{class}", job.label), &detail, job.replay.clone());
+            for m in &members {
+                rep.violation(&format!("{prefix}:{}:{class}", m.label), &detail, m.replay.clone());
+            }
         }
     }
 }
@@ -571,7 +582,7 @@ fn shapes_check(rep: &mut Report, units: &[Unit], tier: &str, seed: u64, only: O
     // emitted casts repeat the table's casts; sweep them with the quick pattern set
     run_jobs(rep, &jobs, match tier { "thorough" => "quick", "miri" => "miri", _ => "light" }, seed, "emitted-cast");
     // every producible non-identity pair must have been emitted by some shape
-    if only.is_none() {
+    if only.is_none() && tier != "miri" {
         for from in WT {
             for to in WT {
                 match direction(from, to) {
